@@ -285,6 +285,28 @@ def job_wire(a):
     want = b"hello" + big + b"abcde" + b"xyz" * 50 + b"prepared" * 20 + b"".join(extra)
     if data != want:
         bad("content", "clear payloads differ from what was sent")
+    # receiving side: masked frames are unmasked with their key before delivery - for a server
+    # (always) and for a client that accepts masked server frames (acceptMaskedServerFrames=True
+    # against a server configured with maskServerFrames=True)
+    ep2 = ws.open_endpoint(role, {"acceptMaskedServerFrames": True} if role == "client" else {})
+    sent = []
+    for i, L in enumerate((0, 1, 2, 3, 5, 125, 126, 127, 128, 131, 300)):
+        body = bytes((53 * j + L) & 0xFF for j in range(L))
+        key = bytes(((i * 29 + k * 7 + 1) & 0xFF) for k in range(4))
+        fr = F.encode(2, body, mask=key)
+        # whole, and cut inside the payload at an offset that is no multiple of 4
+        if L > 3 and i % 2:
+            cutpos = len(fr) - L + 3
+            ep2.feed(fr[:cutpos])
+            ep2.feed(fr[cutpos:])
+        else:
+            ep2.feed(fr)
+        sent.append(body)
+        n += 1
+    got = [bytes(e[1]) for e in ep2.rec if e[0] == "onMessage"]
+    if got != sent:
+        bad("received-masked-frames-not-unmasked", "%s received %d masked frames, delivered %r..., expected %r..." % (
+            role, len(sent), [g[:8] for g in got[:4]], [x[:8] for x in sent[:4]]))
     return {"evals": n, "viol": viol, "stats": {"wire_frames_" + role: n, "nontrivial": n}}
 
 
